@@ -15,7 +15,7 @@
    scopes.  Only const-ness, name resolution and "undeclared variable" are modelled; every other
    compile-time error (types, arity...) is outside (the tie only feeds otherwise valid programs).
 
-   `cfg` switches the four checks that the tree lacked before the fix `const-*.diff` (DESIGN F15):
+   `cfg` switches the checks that the tree lacked before the fixes `const-*.diff` (DESIGN F15 + modify-through-shadow):
    the theorems are about `cfg_fixed`; `cfg_head` is kept to prove that each check is necessary. *)
 From Coq Require Export List NArith Bool.
 Export ListNotations.
@@ -69,6 +69,21 @@ Fixpoint lookup_skip (ss : scopes) (x : name) (skip : nat) : option bool :=
   | s :: r => match skip with
               | O => match contains (vars s) x with Some c => Some c | None => lookup_skip r x O end
               | S k => lookup_skip r x k
+              end
+  end.
+
+(* get_dependency_flags_from_name_and_scopes_plus_skip with BOTH results: the const flag of the Ident
+   found and `is_callback` = a function scope was passed before it (the flag is raised for skipped
+   scopes as well: "should come after we check the contents of a scope") *)
+Fixpoint lookup_skip_cb (ss : scopes) (x : name) (skip : nat) (cb : bool) : option (bool * bool) :=
+  match ss with
+  | [] => None
+  | s :: r => match skip with
+              | O => match contains (vars s) x with
+                     | Some c => Some (c, cb)
+                     | None => lookup_skip_cb r x O (cb || is_function s)
+                     end
+              | S k => lookup_skip_cb r x k (cb || is_function s)
               end
   end.
 
@@ -132,10 +147,13 @@ Definition root_const (ss : scopes) (e : expr) : bool :=
 Record cfg := mkCfg {
   chk_unwrap : bool;      (* math_expr.rs: `?=` on a const name *)
   chk_counter : bool;     (* number_loop.rs: counter collides with a const *)
-  chk_pathop : bool       (* math_expr.rs: a[i] op= v / a.f op= v through a const root *)
+  chk_pathop : bool;      (* math_expr.rs: a[i] op= v / a.f op= v through a const root *)
+  chk_modify_cb : bool    (* assignment.rs can_modify_if_applicable: the target of `modify` must be a CAPTURED
+                             variable (is_callback), not a local of the current function that shadows it *)
 }.
-Definition cfg_fixed := mkCfg true true true.
-Definition cfg_head := mkCfg false false false.     (* tree before fixes/const-*.diff *)
+Definition cfg_fixed := mkCfg true true true true.
+Definition cfg_head := mkCfg false false false false.        (* tree before fixes/const-*.diff *)
+Definition cfg_pre_modify := mkCfg true true true false.     (* tree before fixes/const-modify-through-shadow.diff *)
 
 (* ---------------------------------------------------------------- the compiler's checks *)
 
@@ -151,9 +169,11 @@ Definition assign_checks (did : option bool) (c m : bool) (x : name) (ss' : scop
   let requires_check := is_some did || m in
   (* can_modify_if_applicable (an Err of the modify lookup is reported unconditionally) *)
   let can_modify :=
-    if m then match lookup_skip ss' x 1 with
+    if m then match lookup_skip_cb ss' x 1 false with
               | None => None                            (* "does not exist in any parent scope" *)
-              | Some k => Some (negb k)
+              | Some (k, cb) =>
+                  if chk_modify_cb g && negb cb then None   (* "is a variable of this function, not one captured .." *)
+                  else Some (negb k)
               end
     else match lookup_local ss' x with
          | None => Some true
